@@ -2216,9 +2216,34 @@ class Analyzer:
             return self.f_sqrt(st, i, args)
         if name.startswith("llvm.fabs."):
             return self.f_fabs(st, i, args)
+        if name in ("llround", "lround", "llroundf", "lroundf"):
+            return self.f_lround(st, i, name, args)
         if name in LIBM and all(a is not None for a in args):
             return self.f_libm(st, i, name, args)
         raise Broken("call to non-inlined / unknown function @%s" % name)
+
+    def f_lround(self, st, i, name, args):
+        """lround / llround: the argument rounded to the nearest integer, halfway cases away from zero (exactly specified by C);
+        monotone, so the ends of the argument interval give the ends of the result; NaN or out-of-range arguments give an
+        unspecified value (any value of the type)"""
+        a = self.fval(st, args[0])
+        lo, hi, nan = self.frng(st, a)
+        w = i.ty.bits
+        tlo, thi = sgn_rng(w)
+
+        def rha(x):
+            f = Fraction(x)
+            n = (abs(f) + Fraction(1, 2)).__floor__()
+            return n if f >= 0 else -n
+        t = T(name, a.term)
+        if nan or lo > hi or math.isinf(lo) or math.isinf(hi):
+            rl, rh = tlo, thi
+        else:
+            rl, rh = rha(lo), rha(hi)
+            if rl < tlo or rh > thi:
+                rl, rh = tlo, thi
+        st.notes.append(("libm", i.line, name))
+        st.env[i.res] = self.fresh(st, w, t, rl, rh)
 
     def f_libm(self, st, i, name, args):
         """external libm function of floating arguments: an opaque, deterministic function (value numbered by its
